@@ -186,11 +186,21 @@ def p15_owned_buffers_parked(F, R, M, roles):
         for a in sg.calls(lambda d: roles.get(d.get('fn')) == 'add'):
             owned = set()
             for arg in a.d['args'][1:3]:
-                for x in deep_subterms(S, S.operand(a.id, arg)):
+                for x in deep_subterms(S, S.operand(a.id, arg), depth=8):
                     if x[0] == 'loc' and x[1][0] == 'local' and x[1][1] == 0 and x[1][2] > fn['arg_count']:
                         ty = fn['locals'][x[1][2]]['ty']
                         if (ty.startswith('alloc::vec::Vec<') or ty.startswith('alloc::boxed::Box<')) and fn['locals'][x[1][2]].get('name'):
                             owned.add(x[1][2])
+            # ... and allocations whose value Sym has propagated into the operand (`let rsp = T::new_box_zeroed()?; add(.., rsp.as_mut_bytes())`)
+            op_calls = set()
+            for arg in a.d['args'][1:3]:
+                op_calls |= set(x[1] for x in deep_subterms(S, S.operand(a.id, arg), depth=8) if x[0] == 'call' and isinstance(x[1], int))
+            for l_, ld in enumerate(fn['locals']):
+                if l_ <= fn['arg_count'] or not ld.get('name') or not (ld['ty'].startswith('alloc::vec::Vec<') or ld['ty'].startswith('alloc::boxed::Box<')):
+                    continue
+                v_ = S.operand(a.id, {'copy': {'l': l_, 'p': []}})
+                if any(x[0] == 'call' and x[1] in op_calls and ('alloc' in x[2] or 'new_box' in x[2] or 'Box' in x[2] or 'vec' in x[2]) for x in subterms(v_)):
+                    owned.add(l_)
             for l in sorted(owned):
                 n += 1
                 parked = []
